@@ -85,7 +85,7 @@ pub fn gen_cancel_case(rng: &mut Rng) -> Vec<String> {
 /// C13: several solves on one solver (same or different problems, optionally with a transient
 /// cancellation somewhere in the history so that later solves run after a Cancelled outcome).
 pub fn gen_reuse_case(rng: &mut Rng, async_mode: bool) -> Vec<String> {
-    let kind = *rng.pick(&[Kind::General, Kind::Tight, Kind::Hints, Kind::Soft, Kind::Lazy]);
+    let kind = *rng.pick(&[Kind::General, Kind::Tight, Kind::Hints, Kind::Hints, Kind::Soft, Kind::Soft, Kind::Lazy]);
     let g = gen::generate(rng, kind);
     let mut lines = g.u.to_lines();
     let vss: Vec<u32> = g.u.vsets.keys().copied().collect();
@@ -94,14 +94,31 @@ pub fn gen_reuse_case(rng: &mut Rng, async_mode: bool) -> Vec<String> {
     let mut probs = vec![g.p.clone()];
     for _ in 0..rng.range(1, 3) {
         if rng.chance(1, 3) { probs.push(probs[rng.below(probs.len() as u64) as usize].clone()); continue; }
+        if rng.chance(1, 2) {
+            // a variation of an earlier problem: same requirements plus/minus one item (most metadata is cached,
+            // but the search takes a different path)
+            let mut p = probs[rng.below(probs.len() as u64) as usize].clone();
+            match rng.below(5) {
+                0 => p.reqs.push(Req::Single(*rng.pick(&vss))),
+                1 => p.cons.push(*rng.pick(&vss)),
+                2 => { if p.reqs.len() > 1 { let k = rng.below(p.reqs.len() as u64) as usize; p.reqs.remove(k); } else { p.soft.push(*rng.pick(&solvs)); } }
+                3 => { p.soft.clear(); p.cons.clear(); }
+                _ => { for _ in 0..rng.range(1, 2) { p.soft.insert(0, *rng.pick(&solvs)); } }
+            }
+            probs.push(p);
+            continue;
+        }
         let mut p = Problem::default();
         for _ in 0..rng.range(1, 3) {
             if !unions.is_empty() && rng.chance(1, 6) { p.reqs.push(Req::Union(*rng.pick(&unions))); } else { p.reqs.push(Req::Single(*rng.pick(&vss))); }
         }
         if rng.chance(1, 5) { p.cons.push(*rng.pick(&vss)); }
-        if rng.chance(1, 3) { for _ in 0..rng.range(1, 2) { p.soft.push(*rng.pick(&solvs)); } }
+        if rng.chance(1, 2) { for _ in 0..rng.range(1, 3) { p.soft.push(*rng.pick(&solvs)); } }
         probs.push(p);
     }
+    // half of the histories end with the generated (conflict-prone) main problem, so that it is solved on a cache
+    // already filled by the smaller solves before it (candidates with known dependencies that were never encoded)
+    if rng.chance(1, 2) { probs.rotate_left(1); }
     for p in &probs { lines.push(p.to_line()); }
     let mut cfg = Config { render: false, ..Config::default() };
     if async_mode {
